@@ -88,6 +88,28 @@ def replication(ctx, metrics, c, k):
         ctx.violation("crps:large-n:decomposition", "components %s" % dec.to_dict(), case)
 
 
+def replication2(ctx, metrics, c, k, r):
+    """two more scale laws of the empirical definition: every forecast repeated k times IN A ROW (the first k forecasts are all the
+    first one, ...: stretches of the series have different climatologies) and every member repeated r times (same empirical
+    distribution, large ensembles whose leading members coincide)"""
+    obs = np.repeat(np.array(c["obs"], dtype=float), k)
+    ens = np.repeat(np.repeat(np.array(c["ens"], dtype=float), k, axis=0), r, axis=1)
+    case = {"obs": c["obs"], "ens": c["ens"], "forecasts_repeated": k, "members_repeated": r}
+    try:
+        dec, _ = metrics.crps(obs, ens)
+    except Exception as ex:
+        ctx.violation("crps:exception", repr(ex), case)
+        return
+    for key, exp in (("crps", c["crps"]), ("uncertainty", c["unc"])):
+        e = exp[0] / exp[1]
+        if not abs(float(dec[key]) - e) <= 1e-9 * max(1.0, abs(e)):
+            ctx.violation("crps:large-n:" + key, "%s=%r with every forecast repeated %d times in a row and every member %d times, definition gives %s" %
+                          (key, float(dec[key]), k, r, exp), case)
+            return
+    if abs(float(dec["reliability"]) + float(dec["potential"]) - float(dec["crps"])) > 1e-9:
+        ctx.violation("crps:large-n:decomposition", "components %s" % dec.to_dict(), case)
+
+
 def spec_to_code(ctx, metrics, cfg):
     res = ctx.tlc("CrpsDump", cfg, workers=16, timeout=3000, heap="6g")
     if res.violated:
@@ -95,7 +117,7 @@ def spec_to_code(ctx, metrics, cfg):
     cases = res.printed()
     if len(cases) < 100:
         raise Machinery("Crps generator %s: %d cases" % (cfg, len(cases)))
-    nrep = 0
+    nrep = nrep2 = 0
     for n, c in enumerate(cases):
         h = hash(json.dumps(c["obs"]) + json.dumps(c["ens"]))
         base = {"shift": 0, "scale": 1.0, "revmem": False, "revfc": False, "nanrow": False}
@@ -109,6 +131,9 @@ def spec_to_code(ctx, metrics, cfg):
         if cfg == "MC_Crps_quick.cfg" and len(c["obs"]) == 2 and len(set(c["obs"])) == 2 and nrep < 2 and n % 97 == 5:
             replication(ctx, metrics, c, 23200 if nrep == 0 else 1500)
             nrep += 1
+        if len(c["obs"]) >= 2 and nrep2 < 60 and c["ens"][0] != c["ens"][1] and (c["ens"][0][0] == c["ens"][1][0] or n % 53 == 0):
+            replication2(ctx, metrics, c, [1, 150, 301][nrep2 % 3], [64, 1, 30][nrep2 % 3])
+            nrep2 += 1
         if n % 7001 == 0:
             ctx.sample({"spec->code": {"obs": c["obs"], "ens": c["ens"], "crps": c["crps"], "unc": c["unc"]}})
     ctx.traces += len(cases)
